@@ -128,7 +128,19 @@ func (st *State) assume(t Term) {
 	if t.IsTrue() {
 		return
 	}
+	st.declSet["pc:"+t.S] = true
 	st.pc = append(st.pc, t)
+}
+
+// known reports whether t (or its negation) is literally part of the path condition: 1 = t holds, -1 = not t holds.
+func (st *State) known(t Term) int {
+	if st.declSet["pc:"+t.S] {
+		return 1
+	}
+	if st.declSet["pc:"+Not(t).S] {
+		return -1
+	}
+	return 0
 }
 
 // fact adds an instantiated axiom about a term just created (deduplicated).
@@ -149,7 +161,7 @@ func (st *State) declare(name string, sort *Sort) Term {
 		st.declSet[name] = true
 		st.decls = append(st.decls, smtDecl(name, sort))
 	}
-	return Term{name, sort}
+	return mkT(name, sort)
 }
 
 func (st *State) holds(lock string) bool {
@@ -238,12 +250,12 @@ func sanitize(s string) string {
 // strLit returns the SMT constant for a Go string literal (distinct literals are distinct constants).
 func (e *Engine) strLit(s string) Term {
 	if n, ok := e.strLits[s]; ok {
-		return Term{n, SStr}
+		return mkT(n, SStr)
 	}
 	n := fmt.Sprintf("str!%d", len(e.strLits))
 	e.strLits[s] = n
 	e.strOrder = append(e.strOrder, s)
-	return Term{n, SStr}
+	return mkT(n, SStr)
 }
 
 // strLitDecls declares all string literals met so far with their known facts.
@@ -283,7 +295,7 @@ func (e *Engine) symbolicOf(st *State, t types.Type, name string, depth int) Val
 	if s := scalarSort(t); s != nil {
 		term := st.declare("in."+sanitize(name), s)
 		if lo, hi, ok := intRange(t); ok {
-			st.assume(And(Ge(term, Term{lo, SInt}), Le(term, Term{hi, SInt})))
+			st.assume(And(Ge(term, mkT(lo, SInt)), Le(term, mkT(hi, SInt))))
 		}
 		return sym(term)
 	}
@@ -337,10 +349,10 @@ func mapSorts(m *types.Map) (ks, vs *Sort, absent Term, ok bool) {
 	}
 	vs = scalarSort(m.Elem())
 	if vs == SBytes {
-		return ks, vs, Term{"NOX", SBytes}, true
+		return ks, vs, mkT("NOX", SBytes), true
 	}
 	if _, isIface := m.Elem().Underlying().(*types.Interface); isIface {
-		return ks, SJson, Term{"JABSENT", SJson}, true
+		return ks, SJson, mkT("JABSENT", SJson), true
 	}
 	return nil, nil, Term{}, false
 }
@@ -383,7 +395,7 @@ func (e *Engine) zeroOf(t types.Type) Value {
 		case SStr:
 			return sym(e.strLit(""))
 		case SBytes:
-			return sym(Term{"NULLB", SBytes})
+			return sym(mkT("NULLB", SBytes))
 		}
 	}
 	switch u := t.Underlying().(type) {
